@@ -5,6 +5,7 @@ import shutil
 import tempfile
 import numpy as np
 from hypothesis import strategies as st
+from vlib import strategies as S
 
 from vlib.runner import Outcome, cut, CutError, close, maxrel
 from vlib.props.c05 import overlap_mean, midpoint_widths
@@ -25,23 +26,25 @@ ASSUMPTIONS = [
 ]
 REQUIRED = {'tied-wavelengths': 0.015, 'source:array': 0.2, 'source:text': 0.1, 'source:hdf5-class': 0.08, 'source:hdf5-func': 0.08,
             'cols:4': 0.3, 'cols:3': 0.05, 'permuted': 0.4}
+# coverage-guided extra (thorough tier): pure-Python taurex modules on this property's path, instrumented by atheris
+FUZZ = {'include': ['taurex.data.spectrum', 'taurex.binning', 'taurex.util.util', 'taurex.util.hdf5'], 'runs': 20000, 'workers': 4}
 
 
 @st.composite
 def _case(draw):
     src = draw(st.sampled_from(['array', 'text', 'hdf5-class', 'array', 'hdf5-func']))
-    n = draw(st.integers(2, 60))
+    n = draw(S.ints(2, 60))
     wl0 = draw(st.floats(0.1, 20.0))
     ratios = draw(st.lists(st.floats(1.002, 1.25), min_size=n - 1, max_size=n - 1))
     noise = draw(st.lists(st.floats(-1.0, 1.0), min_size=n, max_size=n))
     enoise = draw(st.lists(st.floats(0.0, 1.0), min_size=n, max_size=n))
     cols = 4 if src.startswith('hdf5') else draw(st.sampled_from([4, 3, 4]))
     wfac = draw(st.lists(st.floats(0.05, 0.95), min_size=n, max_size=n))
-    perm = draw(st.permutations(list(range(n))))
+    perm = draw(S.perm(list(range(n))))
     return {'source': src, 'wl0': wl0, 'ratios': ratios, 'noise': noise, 'enoise': enoise, 'cols': cols,
             'wfac': wfac, 'perm': perm, 'uniform': draw(st.sampled_from([False, False, False, True])),
             # two rows sharing exactly the same wavelength (two instruments reporting the same point)
-            'tie': draw(st.sampled_from([None, None, [draw(st.integers(0, 59)), draw(st.integers(0, 59))]]))}
+            'tie': draw(st.sampled_from([None, None, [draw(S.ints(0, 59)), draw(S.ints(0, 59))]]))}
 
 
 def strategy(tier):
